@@ -82,7 +82,7 @@ func uciCases(args []string) int {
 		"go wtime", "go btime 100", "go wtime 100", "go winc 10", "go winc", "go binc", "go movestogo 5 wtime 100 btime 100", "go movestogo", "go", "go infinite",
 		"go ponder wtime 100 btime 100", "go depth x", "go nodes -5", "go depth -1", "go depth 99999999999999999999", "go searchmoves e2e4 depth 1",
 		"go searchmoves", "go searchmoves e2e5 depth 1", "go moves e2e4 depth 1", "go wtime 0 btime 0", "go depth 1 depth 2", "go depth 1 ", " go depth 1",
-		"setoption name Hash value 2", "setoption name Hash value -5", "setoption name Hash value abc", "setoption name Hash value 3", "setoption name Hash", "setoption name",
+		"setoption name Hash value 2", "setoption name Hash value -5", "setoption name Hash value abc", "setoption name Hash value 3", "setoption name Hash value 0", "setoption name Hash value 1", "setoption name Hash", "setoption name",
 		"setoption", "setoption value 3", "setoption name Use_Hash value false", "setoption name Use_Hash value maybe", "setoption name Nonexistent value 1",
 		"setoption name Clear Hash", "setoption name Print Config", "setoption name Ponder value true", "setoption name Ponder value false",
 		"setoption name Use_PVS value false", "setoption name Use_PVS value TRUE", "setoption name Use_Killer value 0", "setoption name Use_Killer value t",
